@@ -66,3 +66,12 @@ Print Assumptions C01_no_unallocated_parameter.
 Theorem C01_slot_tables_well_formed : forall funcs ii, slots_ok_b (allocate_slots funcs ii) = true.
 Proof. exact AllocProofs.allocate_slots_ok. Qed.
 Print Assumptions C01_slot_tables_well_formed.
+
+(* ... and the value comes from an included provider listed before the consumer that puts out
+   exactly that (remapped) type; for every selection Bind accepts. *)
+Theorem C01_source_is_an_earlier_included_provider : forall te funcs1 funcs,
+  select te funcs1 = Ok funcs ->
+  forall k p t, getp funcs k = Some p -> p_include p = true -> In t (pflow p FIn) -> t <> te_noT te ->
+    exists d r, d < k /\ getp funcs d = Some r /\ p_include r = true /\ In (remap (p_downR p) t) (pflow r FOut).
+Proof. intros te f1 f H. exact (proj1 (select_sources te f1 f H)). Qed.
+Print Assumptions C01_source_is_an_earlier_included_provider.
